@@ -4,6 +4,7 @@ a time and produces, after every operation, the same observation line the Lean d
 Only public API of the library is used.  What is read of CPython's asyncio (the loop's ready deque, the Task a
 handle is bound to) belongs to the interpreter, which is in the trusted base (DESIGN §2, §7)."""
 import asyncio
+import functools
 import logging
 import math
 import re
@@ -192,6 +193,11 @@ class ImplWorld:
                 ctx.ev.append(f"R{tid}")
             finally:
                 ctx.live.discard(tid)
+        # every other worker function is handed to the pool as a `functools.partial` object: a coroutine function as far
+        # as asyncio is concerned, but a callable without `__name__`
+        ctx.nworkers = getattr(ctx, "nworkers", 0) + 1
+        if ctx.nworkers % 2 == 0:
+            return functools.partial(worker)
         return worker
 
     def mkcb(self, ctx, kind, spec, hooks, holder):
